@@ -559,30 +559,30 @@ func genC10(c *Ctx) {
 			if sc.name == "enter-during-failure" {
 				// one more caller is held between the enqueue and the hand-off while the failure happens
 				unpark = make(chan bool)
-				parked := make(chan bool, 1)
-				first := true
+				seen := 0
 				var mu sync.Mutex
 				unsub = subscribe(func(point string, args []interface{}) {
 					if point == "rpcnb.enqueued" && args[0].(*g.Clnt) == cl {
 						mu.Lock()
-						mine := first && K == 0
-						if K > 0 {
-							// park the last of the K callers
-							mine = false
-						}
-						first = false
+						seen++
+						mine := seen == K // the last of the K callers: on the pending list, not yet handed to the writer
 						mu.Unlock()
 						if mine {
-							parked <- true
-							<-unpark
+							select {
+							case <-unpark:
+							case <-time.After(5 * time.Second):
+							}
 						}
 					}
 				})
-				_ = parked
 			}
 			wg, res := startCallers(cl, K)
 			var reqs []peerReq
-			for len(reqs) < K {
+			expectReqs := K
+			if unpark != nil && K > 0 {
+				expectReqs = K - 1 // the parked caller's request never reaches the peer
+			}
+			for len(reqs) < expectReqs {
 				select {
 				case q := <-p.reqs:
 					reqs = append(reqs, q)
